@@ -216,7 +216,7 @@ class CfgGen:
             v = rng.choice(self.vkeys)
             return rng.choice(['(on-press %s %s)', '(on-release %s %s)']) % (
                 rng.choice(['press-vkey', 'release-vkey', 'tap-vkey', 'toggle-vkey']), v) if rng.random() < 0.7 else \
-                '(hold-for-duration %d %s)' % (self.timeout(), v)
+                '(hold-for-duration %d %s)' % (self.timeout(), self.vkeys[0])   # one hold-for vkey: hash-map order is observable otherwise
         if k == 'capsword':
             return '(caps-word %d)' % rng.choice([50, 200])
         if k == 'unmod':
